@@ -72,8 +72,16 @@ def run(ctx: core.Ctx):
             return [[(a.term.name, np.atleast_1d(np.asarray(a.degree, dtype=float)).copy(), a.implication) for a in v.fuzzy.terms] for v in e.output_variables]
 
         def clear():
+            # the fuzzy outputs are emptied in the three ways the public interface offers, in turn: clear(), a new list of
+            # activated terms, a new Aggregated object - the loaded rule must write into whatever the variable holds NOW
+            clear.n = getattr(clear, "n", 0) + 1
             for v in e.output_variables:
-                v.fuzzy.clear()
+                if clear.n % 3 == 0:
+                    v.fuzzy.clear()
+                elif clear.n % 3 == 1:
+                    v.fuzzy.terms = []
+                else:
+                    v.fuzzy = fl.Aggregated(name=v.name, minimum=v.minimum, maximum=v.maximum, aggregation=v.fuzzy.aggregation)
 
         def compare(mode, obs, degs_idx):
             for o in range(3):
